@@ -53,7 +53,7 @@ var errInjected = errors.New("injected failure")
 type chunk struct {
 	N    int // bytes to deliver (clipped to len(p)); -1: report a negative count
 	Fill byte
-	Err  int // 0 nil, 1 EOF together with the data, 2 injected error
+	Err  int // 0 nil, 1 EOF together with the data, 2 injected error, 3 an error wrapping io.EOF
 }
 type scriptReader struct {
 	script []chunk
@@ -81,6 +81,8 @@ func (r *scriptReader) Read(p []byte) (int, error) {
 		return n, io.EOF
 	case 2:
 		return n, errInjected
+	case 3:
+		return n, fmt.Errorf("the stream ended early: %w", io.EOF) // an error that wraps io.EOF is an error, not the end
 	}
 	return n, nil
 }
@@ -248,7 +250,7 @@ func genOp() *rapid.Generator[op] {
 				c := chunk{
 					N:    rapid.OneOf(rapid.IntRange(0, 40), rapid.SampledFrom([]int{0, 1, 511, 512, 513, 2000})).Draw(t, "cn"),
 					Fill: rapid.Byte().Draw(t, "fill"),
-					Err:  rapid.SampledFrom([]int{0, 0, 0, 1, 2}).Draw(t, "cerr"),
+					Err:  rapid.SampledFrom([]int{0, 0, 0, 1, 2, 3}).Draw(t, "cerr"),
 				}
 				if rapid.IntRange(0, 24).Draw(t, "neg") == 0 {
 					c.N = -1
